@@ -8,22 +8,22 @@ BASELINE = "cd /repo && /venv/bin/python -m pytest -ra -q -p no:cacheprovider --
 
 # appended to the level note: what was added after the seeded-change rounds and the growth phases (DESIGN 10, 11)
 EXTRA_NOTES = {
-    "C01": "Payload kinds are interleaved in every worker process, first rounds carry all-zero / all-one payload octets; EMB words of voice bursts are laid out by the harness from the QR(16,7,6) code.",
+    "C01": "TLC lists the valid EMB words nearest to each SYNC pattern (MC_BurstNear) and the harness builds those voice bursts. Payload kinds are interleaved in every worker process, first rounds carry all-zero / all-one payload octets; EMB words of voice bursts are laid out by the harness from the QR(16,7,6) code.",
     "C03": "Every other case is handled by an impolite caller that edits built and decoded objects in place afterwards; undefined element values are judged against the standard's reserved / manufacturer ranges (Elements.tla).",
-    "C04": "HRNP also on the relay path (received, field updated, sent on).",
+    "C04": "HRNP also on the relay path (received, field updated, sent on); error patterns aimed at indicators computed over re-serialised fields (fold-amplified, harness polynomial arithmetic); corruption records judged in slices of 400 000.",
     "C05": "CRC-32 part incl. 00000000/00000001/80000000/FFFFFFFF; half of the callers reuse a mutable buffer for calculate, calculate, verify.",
     "C06": "Encoder outputs of a sweep are held and read after the last call; each repair result is read after the next call.",
     "C07": "Extremes N=126/127 with 0/2/16 preambles in both tiers. Growth phase AirLink (AirLink.tla, MC_AirLink): <=2 inverted information bits per BPTC-protected burst, informational.",
     "C08": "Histories that outlast the 8-bit receive sequence counter are part of both tiers. Growth phase TransmissionWatcher (Watcher.tla, Trace_Watcher): per-terminal C08 monitors on traffic routed by the watcher (verdict-bearing), routing facts; observations outside the listed properties are printed as OUTSIDE-LISTED-PROPERTIES.",
-    "C09": "Half of the samples are taken by a caller that damages an earlier result in place first.",
-    "C10": "One block in three is processed by a caller that damages earlier results in place and asks again; interleave/deinterleave are also composed directly.",
+    "C09": "Half of the samples are taken by a caller that damages an earlier result in place first; a third / a quarter of the (68,28) / (128,72) messages are little-endian bitarrays. Growth phase embedded-LC reassembly (EmbeddedLC.tla, MC_EmbeddedLC, Trace_EmbeddedLC) on the real EmbeddedExtractor, informational.",
+    "C10": "One block in three is processed by a caller that damages earlier results in place and asks again; one in four is kept in little-endian bitarrays; every fourth damaged stream is followed by a valid block; interleave/deinterleave are also composed directly.",
     "C11": "Results held and read late, mutable buffers, accepted words offered again under the other masks.",
     "C12": "Opcodes interleaved, impolite caller, HRNP packet numbers aimed at the corners of ones-complement addition, GPS speeds over the whole NMEA range. Growth phase protocol detection (Detect.tla, MC_Detect), informational.",
     "C13": "One frame in four is received twice with the first decoding edited in between; ids with zero / all-ones octets in each position.",
     "C14": "Coordinates and info-times are read back through the library's own XML view; TLC judges in slices of 300 000 records.",
     "C15": "Buffers are also framed by the harness as the grammar says (not only by the library's serialiser); result codes incl. 0 and septet boundaries.",
     "C16": "UCS-2 texts with 0x00/0x7F/0x80/0xFF octets in first, middle and last position; impolite caller.",
-    "C17": "One history in four starts with the own sequence counter a few answers before its 16-bit wrap-around (reachable state set through the public attribute).",
+    "C17": "Growth phase active peer (MC_HSTRPActive.tla: timer, loss, liveness; the real periodic_maintenance coroutine under virtual time), informational. One history in four starts with the own sequence counter a few answers before its 16-bit wrap-around (reachable state set through the public attribute).",
     "C18": "Growth phase start-up sequence across both handlers on one storage (Trace_Startup.tla): P2P and RDAC monitors plus cross-handler storage clauses.",
     "C19": "Catalogue also decodes every implemented Hytera opcode from generated PDUs with different values and builds them with default arguments; every signature family has a variant with caller-owned bytearrays; clock pass shifts the date by 38 years.",
     "C20": "Source states of replayed edges are set up with the specification's own operations and judged by TLC; a fresh record must carry only the attributes its creating call names; bounded model explored with one worker (deterministic graph).",
